@@ -77,8 +77,6 @@ HARNESSES = {
     "u05_flags_set_contains": {"crate": "automerge", "file": "rust/automerge/src/sync.rs", "fn": "MessageFlags::set, MessageFlags::contains, MessageFlags::new", "mode": "complete", "bound": "all u8 x single-bit flags (loop-free)"},
     "u05_flags_parse_bytes": {"crate": "automerge", "file": "rust/automerge/src/sync.rs", "fn": "MessageFlags::parse_bytes", "mode": "bounded", "bound": "all flag sections of <= 3 bytes"},
     "u05_encode_many_prefix": {"crate": "automerge", "file": "rust/automerge/src/sync.rs", "fn": "encode_many (count prefix of encode_hashes / Message::encode / State::encode)", "mode": "complete", "bound": "all usize element counts (element source reports a symbolic len and yields nothing; LEB128 loops bounded by the 10-byte width)"},
-    "u05_message_skeleton_roundtrip": {"crate": "automerge", "file": "rust/automerge/src/sync.rs", "fn": "Message::encode, Message::decode, Message::parse", "mode": "bounded", "timeout_s": 900,
-                                       "bound": "<= 1 head (arbitrary hash), empty need/have/changes; every version x flags combination"},
     "u05_set_read_only_transitions": {"crate": "automerge", "file": "rust/automerge/src/sync/state.rs", "fn": "State::set_read_only", "mode": "bounded", "bound": "all flag combinations; container fields empty or one capability"},
     # ---- U06 hexane
     "u06_leb_unsigned_roundtrip": {"crate": "hexane", "file": "rust/hexane/src/codec.rs", "fn": "Leb128::encode_unsigned, read_unsigned, try_read_unsigned, unsigned_len, unsigned_size, ulebsize, VarBuf::push, VarBuf::as_bytes", "mode": "complete", "bound": "all u64 (loops bounded by the 10-byte width, unwind 12 with unwinding assertions)"},
